@@ -1179,6 +1179,11 @@ class CryptographyEngine(api.CryptographicEngine):
                 )
 
             if derivation_method == enums.DerivationMethod.HMAC:
+                if derivation_length > 255 * hashing_algorithm.digest_size:
+                    raise exceptions.CryptographicFailure(
+                        "The specified length exceeds the output of the "
+                        "derivation method."
+                    )
                 df = hkdf.HKDF(
                     algorithm=hashing_algorithm(),
                     length=derivation_length,
